@@ -663,14 +663,40 @@ func igcIndexGuards(p *core.Program, r *core.Report, rule string, initLen int64)
 		line := pi.Params[1]
 		maxC := int64(-1)
 		bad := ""
+		// a running offset that starts at a non-negative constant c0 and advances by 7 stands for 7*i + c0, i >= 0
+		offsetPhi := func(v ssa.Value) (int64, bool) {
+			phi, ok := v.(*ssa.Phi)
+			if !ok || len(phi.Edges) != 2 {
+				return 0, false
+			}
+			c0, has0, step := int64(0), false, false
+			for _, e := range phi.Edges {
+				if k, isK := eng.ConstInt(e); isK && k >= 0 {
+					c0, has0 = k, true
+					continue
+				}
+				if add, isAdd := e.(*ssa.BinOp); isAdd && add.Op == token.ADD && add.X == ssa.Value(phi) {
+					if k, isK := eng.ConstInt(add.Y); isK && k == 7 {
+						step = true
+					}
+				}
+			}
+			return c0, has0 && step
+		}
 		affine := func(v ssa.Value) (int64, bool) {
 			// 7*i + c
+			if c0, ok := offsetPhi(v); ok {
+				return c0, true
+			}
 			add, ok := v.(*ssa.BinOp)
 			if !ok || add.Op != token.ADD {
 				return 0, false
 			}
-			mul, ok := add.X.(*ssa.BinOp)
 			c, okc := eng.ConstInt(add.Y)
+			if c0, isOff := offsetPhi(add.X); isOff && okc {
+				return c0 + c, true
+			}
+			mul, ok := add.X.(*ssa.BinOp)
 			if !ok || !okc || mul.Op != token.MUL {
 				return 0, false
 			}
@@ -678,6 +704,14 @@ func igcIndexGuards(p *core.Program, r *core.Report, rule string, initLen int64)
 				return c, true
 			}
 			return 0, false
+		}
+		multiplicand := func(v ssa.Value) ssa.Value {
+			if add, ok := v.(*ssa.BinOp); ok {
+				if mul, ok := add.X.(*ssa.BinOp); ok && mul.Op == token.MUL {
+					return mul.Y
+				}
+			}
+			return nil // the offset form: the counter is the offset itself, non-negative by construction
 		}
 		for _, b := range pi.Blocks {
 			for _, in := range b.Instrs {
@@ -709,7 +743,7 @@ func igcIndexGuards(p *core.Program, r *core.Report, rule string, initLen int64)
 					}
 					// i must be known non-negative: the extension count is parsed from the record and parseDec
 					// accepts a sign, so 7*n+c with the count itself can be below zero
-					if m := ix.(*ssa.BinOp).X.(*ssa.BinOp).Y; !nonNegative(pi, m, in.Block()) {
+					if m := multiplicand(ix); m != nil && !nonNegative(pi, m, in.Block()) {
 						bad = fmt.Sprintf("index %s at %s multiplies %s, which is not known to be non-negative (a loop counter from 0, or a value tested against 0): a signed count such as `I-1` makes the bound negative and the slice expression panics", ix.Name(), p.Pos(in.Pos()), m.Name())
 						continue
 					}
